@@ -24,7 +24,7 @@ import (
 
 type EvPod struct {
 	Name   string `json:"name"`
-	Owner  int    `json:"owner"`  // 0 none, 1 set A, 2 A with a stale UID, 3 other kind named like A, 4 set B, 5 unknown set name
+	Owner  int    `json:"owner"`  // 0 none, 1 set A, 2 A with a stale UID, 3 other kind named like A, 4 set B, 5 unknown set name, 6 set A, the reference written with the other served API version (v1alpha1)
 	Labels int    `json:"labels"` // 0 match A(+B if overlapping), 1 match B only, 2 none matching, 3 nil, 4 match A plus extra
 	RV     string `json:"rv"`
 	Term   bool   `json:"term,omitempty"`
@@ -53,7 +53,7 @@ func (c C16Case) Summary() interface{} { return c }
 func genEvPod(rt *rapid.T, label string) EvPod {
 	return EvPod{
 		Name:   rapid.SampledFrom([]string{"web-0", "web-1", "web-7", "zz-other-0", "stray"}).Draw(rt, label+"Name"),
-		Owner:  rapid.SampledFrom([]int{0, 0, 1, 1, 1, 2, 3, 4, 5}).Draw(rt, label+"Owner"),
+		Owner:  rapid.SampledFrom([]int{0, 0, 1, 1, 1, 2, 3, 4, 5, 6}).Draw(rt, label+"Owner"),
 		Labels: rapid.SampledFrom([]int{0, 0, 0, 1, 2, 3, 4}).Draw(rt, label+"Labels"),
 		RV:     rapid.SampledFrom([]string{"1", "2", "3"}).Draw(rt, label+"RV"),
 		Term:   rapid.IntRange(0, 5).Draw(rt, label+"Term") == 0,
@@ -142,6 +142,9 @@ func (w *c16World) mkPod(p EvPod) *corev1.Pod {
 		pod.OwnerReferences = []metav1.OwnerReference{{APIVersion: "apps.pingcap.com/v1", Kind: "StatefulSet", Name: "zz-other", UID: "uid-B", Controller: &tr}}
 	case 5:
 		pod.OwnerReferences = []metav1.OwnerReference{{APIVersion: "apps.pingcap.com/v1", Kind: "StatefulSet", Name: "nosuchset", UID: "uid-X", Controller: &tr}}
+	case 6:
+		// the CRD serves v1alpha1 and v1 of the same object; ownership is by UID
+		pod.OwnerReferences = []metav1.OwnerReference{{APIVersion: "apps.pingcap.com/v1alpha1", Kind: "StatefulSet", Name: "web", UID: "uid-A", Controller: &tr}}
 	}
 	if p.Term {
 		ts := metav1.Unix(1600000000, 0)
